@@ -48,6 +48,9 @@ fn main() {
         "C01" => checks::c01::run(tier),
         "C12" => checks::c12::run(tier),
         "C06" => checks::c06::run(tier),
+        "C15" => checks::c15::run(tier),
+        "C09" => checks::c09::run(tier),
+        "C07" => checks::c07::run(tier),
         "C03" => checks::c03::run(tier),
         "c03-child" => checks::c03::child(&args[2..]),
         "probe" => {
